@@ -266,6 +266,13 @@ class Interp:
                 return IntV(cv, cv)
             if isinstance(cv, (str, bytes)):
                 return lit(cv)
+            if cv is None and "." not in d and d not in st:
+                # module-level literal collection: _UTF8_NAMES = ("utf-8", "utf8")
+                ce = self.proj.const_expr(self.fi.module, d)
+                if ce is not None and isinstance(ce[1], (ast.Tuple, ast.List, ast.Set)) and all(isinstance(x, ast.Constant) for x in ce[1].elts):
+                    return self.eval(ce[1], st)
+                if ce is not None and isinstance(ce[1], ast.Call) and dotted(ce[1].func) in ("frozenset", "set", "tuple") and len(ce[1].args) == 1 and isinstance(ce[1].args[0], (ast.Tuple, ast.List, ast.Set)) and all(isinstance(x, ast.Constant) for x in ce[1].args[0].elts):
+                    return self.eval(ce[1].args[0], st)
             ft = self._field_type(d)
             if ft == "int":
                 return IntV(None, None)
